@@ -551,8 +551,14 @@ func c05(w *core.World, r *core.Report) {
 		for _, b := range core.Blocks(getRb) {
 			for _, in := range b.Instrs {
 				if n, ok := in.(*ssa.Next); ok {
-					if rg, ok := n.Iter.(*ssa.Range); ok && core.FieldOf(rg.X) == "datastore/types.Transaction.oldIntents" {
-						next = n
+					if rg, ok := n.Iter.(*ssa.Range); ok {
+						core.WithHost(getRb, func() {
+							for _, o := range append(core.Origins(rg.X), rg.X) {
+								if core.FieldOf(o) == "datastore/types.Transaction.oldIntents" {
+									next = n // possibly the loop of a generic helper that is handed the map
+								}
+							}
+						})
 					}
 				}
 			}
@@ -563,7 +569,7 @@ func c05(w *core.World, r *core.Report) {
 			adds := core.CallsTo(getRb, "datastore/types.Transaction.AddTransactionIntent")
 			okAll := len(adds) == 1
 			if okAll {
-				skipPath, _ := core.PathQuery{Avoid: func(in ssa.Instruction) bool { return in == ssa.Instruction(adds[0]) }}.Reaches(next.Block(), core.InstrIndex(next)+1, func(in ssa.Instruction) bool { return in == ssa.Instruction(next) })
+				skipPath, _ := core.PathQuery{Avoid: func(in ssa.Instruction) bool { return in == ssa.Instruction(adds[0]) }, Root: getRb}.Reaches(next.Block(), core.InstrIndex(next)+1, func(in ssa.Instruction) bool { return in == ssa.Instruction(next) })
 				okAll = !skipPath
 				a := core.CallArgs(adds[0])
 				if len(a) == 2 {
